@@ -383,7 +383,9 @@ def run_layout(pid, tier):
         cov["tlaps"] = tlaps_proofs("ArithProofs", needs=("Arith.tla",),
                                     theorems=("RoundUpFacts: RoundUp(n, a) is the multiple of a in n .. n+a-1",
                                               "FixedIffAligned: RoundUp(n, a) = n <=> n % a = 0, for naturals of any size",
-                                              "PaddedPlace: after explicit padding up to an aligned address the compiler adds none"))
+                                              "PaddedPlace: after explicit padding up to an aligned address the compiler adds none",
+                                              "SlotBase/SlotStep: pointer-sized slots under repr(C) sit at i times the pointer width, for tables of any length",
+                                              "ArrayStride: when the element size is a multiple of the element alignment every element is aligned"))
     res.coverage = cov
     res.assumptions = [
         "RustLayout.tla (the model of the compiler) is trusted only as far as this run's cross-check against host rustc, "
